@@ -61,6 +61,10 @@ Fixpoint split_aux (pat : bytes) (skip : nat) (cur : bytes) (s : bytes) : list b
   end.
 Definition split (s pat : bytes) : list bytes := split_aux pat O [] s.
 
+(* [T]::join with a one-character separator *)
+Fixpoint join_with (c : N) (l : list (list N)) : list N :=
+  match l with [] => [] | [x] => x | x :: r => x ++ c :: join_with c r end.
+
 (* str::replace for a non-empty pattern *)
 Fixpoint repl_aux (pat rep : bytes) (skip : nat) (s : bytes) : bytes :=
   match s with
